@@ -168,3 +168,86 @@ mod tests {
         }
     }
 }
+
+// ---- signed helpers (sign in {-1,0,1}, magnitude) for Bezout witnesses ----
+pub type Z = (i32, N);
+pub fn z_norm(s: i32, m: N) -> Z {
+    if m.is_empty() {
+        (0, m)
+    } else {
+        (s, m)
+    }
+}
+pub fn z_neg(a: &Z) -> Z {
+    (-a.0, a.1.clone())
+}
+pub fn z_add(a: &Z, b: &Z) -> Z {
+    if a.0 == 0 {
+        return b.clone();
+    }
+    if b.0 == 0 {
+        return a.clone();
+    }
+    if a.0 == b.0 {
+        return (a.0, add(&a.1, &b.1));
+    }
+    match cmp(&a.1, &b.1) {
+        std::cmp::Ordering::Equal => (0, vec![]),
+        std::cmp::Ordering::Greater => (a.0, sub(&a.1, &b.1)),
+        std::cmp::Ordering::Less => (b.0, sub(&b.1, &a.1)),
+    }
+}
+pub fn z_sub(a: &Z, b: &Z) -> Z {
+    z_add(a, &z_neg(b))
+}
+pub fn z_mul(a: &Z, b: &Z) -> Z {
+    z_norm(a.0 * b.0, mul(&a.1, &b.1))
+}
+/// (g, x, y) with |a|*x + |b|*y = g = gcd(|a|, |b|)
+pub fn ext_gcd(a: &N, b: &N) -> (N, Z, Z) {
+    let (mut r0, mut r1) = (a.clone(), b.clone());
+    let (mut s0, mut s1): (Z, Z) = ((1, vec![1]), (0, vec![]));
+    let (mut t0, mut t1): (Z, Z) = ((0, vec![]), (1, vec![1]));
+    while !r1.is_empty() {
+        let (q, r) = divmod(&r0, &r1);
+        let qz: Z = z_norm(1, q);
+        let s2 = z_sub(&s0, &z_mul(&qz, &s1));
+        let t2 = z_sub(&t0, &z_mul(&qz, &t1));
+        r0 = r1;
+        r1 = r;
+        s0 = s1;
+        s1 = s2;
+        t0 = t1;
+        t1 = t2;
+    }
+    (r0, s0, t0)
+}
+pub fn z_json(z: &Z) -> String {
+    let b = to_bytes(&z.1);
+    let mut s = String::from("[");
+    for (k, v) in b.iter().enumerate() {
+        if k > 0 {
+            s.push(',');
+        }
+        s.push_str(&v.to_string());
+    }
+    s.push(']');
+    format!("{{\"s\":{},\"d\":{}}}", if z.1.is_empty() { 0 } else { z.0 }, s)
+}
+
+#[cfg(test)]
+mod tests2 {
+    use super::*;
+    #[test]
+    fn bezout() {
+        for a in [0u128, 1, 12, 35, 1 << 70, 0xdeadbeefcafebabe1234] {
+            for b in [0u128, 1, 18, 49, (1 << 70) + 6, 0xfeedface] {
+                let (g, x, y) = ext_gcd(&from_u128(a), &from_u128(b));
+                let lhs = z_add(&z_mul(&z_norm(1, from_u128(a)), &x), &z_mul(&z_norm(1, from_u128(b)), &y));
+                assert_eq!(lhs, z_norm(1, g.clone()));
+                fn gg(a: u128, b: u128) -> u128 { if b == 0 { a } else { gg(b, a % b) } }
+                assert_eq!(g, from_u128(gg(a, b)));
+            }
+        }
+    }
+}
